@@ -1,0 +1,91 @@
+//go:build verif
+
+// Contracts for package scorch: introducing a merged segment (read by /verif/gocv; comment-only
+// effect with the verif tag off).
+
+package scorch
+
+// ---------------------------------------------------------------------------
+// C05: merging must not change what a search returns: documents deleted from a source segment
+// while the merge was running are deleted in the merged segment as well, source segments that
+// left the root meanwhile are obsoleted as a whole, the segments that stay keep their place and
+// offsets are the running document counts again
+// ---------------------------------------------------------------------------
+
+// ---- roaring (assumed): mutation and iteration of bitmaps ----
+//@ assume func roaring.NewBitmap()
+//@   ensures result != nil && fresh(result) && all(x, uint32, !bhas(result, x))
+//@ assume func roaring.AndNot(x1, x2)
+//@   requires x1 != nil && x2 != nil
+//@   ensures result != nil && fresh(result) && all(x, uint32, iff(bhas(result, x), bhas(x1, x) && !bhas(x2, x)))
+//@ assume func roaring.Bitmap.Add(rb, x)
+//@   requires rb != nil
+//@   modifies rb.mem
+//@   ensures all(y, uint32, iff(bhas(rb, y), old(bhas(rb, y)) || y == x))
+// An iterator enumerates the members its bitmap had when it was created: itElem(it, 0..itLen-1),
+// each member exactly at its index itIdx(it, x).
+//@ ghostfield roaring.IntIterable.pos int
+//@ uf itLen(it roaring.IntIterable) int
+//@ uf itElem(it roaring.IntIterable, k int) uint32
+//@ uf itIdx(it roaring.IntIterable, x uint32) int
+//@ assume func roaring.Bitmap.Iterator(rb)
+//@   requires rb != nil
+//@   ensures result != nil && fresh(result) && result.pos == 0 && itLen(result) >= 0
+//@   ensures forall(k, 0, itLen(result), bhas(rb, itElem(result, k)))
+//@   ensures all(x, uint32, implies(bhas(rb, x), 0 <= itIdx(result, x) && itIdx(result, x) < itLen(result) && itElem(result, itIdx(result, x)) == x))
+//@ assume func roaring.IntIterable.HasNext(it)
+//@   requires it != nil
+//@   ensures result == (it.pos < itLen(it)) && 0 <= it.pos && it.pos <= itLen(it)
+//@ assume func roaring.IntIterable.Next(it)
+//@   requires it != nil && 0 <= it.pos && it.pos < itLen(it)
+//@   modifies it.pos
+//@   ensures result == itElem(it, old(it.pos)) && it.pos == old(it.pos) + 1
+
+// the live documents of a segment snapshot (trusted: built with AddRange / in-place AndNot)
+//@ func SegmentSnapshot.DocNumbersLive
+//@   props C05
+//@   mode int
+//@   trusted bitmap range arithmetic (AddRange, in-place AndNot) is not under contract
+//@   requires s != nil && s.segment != nil
+//@   ensures result != nil && fresh(result) && all(x, uint32, iff(bhas(result, x), uint64(x) < segDocs(s.segment) && !bin(s.deleted, x)))
+
+// ---- merge bookkeeping (data invariants of segmentMerge, assumed as preconditions) ----
+// a history entry maps every document of its source segment that was live when the merge started
+// to a 32-bit document number of merged segment batchID
+//@ spec histOK(h *mergedSegmentHistory, n int) bool = h.oldSegment != nil && h.oldSegment.segment != nil && 0 <= h.batchID && h.batchID < n && uint64(len(h.oldNewDocIDs)) == segDocs(h.oldSegment.segment) && \
+//@     all(x, uint32, implies(int(x) < len(h.oldNewDocIDs) && !bin(h.oldSegment.deleted, x), h.oldNewDocIDs[x] <= 4294967295))
+// what the merge must carry over from source segment ss: every document deleted in ss that was not
+// yet deleted when the merge started is deleted, under its new number, in the merged segment
+//@ spec carried(nsd []*roaring.Bitmap, ss *SegmentSnapshot, h *mergedSegmentHistory) bool = all(x, uint32, implies(bin(ss.deleted, x) && !bin(h.oldSegment.deleted, x), bhas(nsd[h.batchID], uint32(h.oldNewDocIDs[x]))))
+//@ spec freshBitmaps(nsd []*roaring.Bitmap, n int) bool = forall(k, 0, n, nsd[k] != nil && fresh(nsd[k]))
+
+//@ func Scorch.introduceMerge
+//@   props C05
+//@   mode int
+//@   locks
+//@   requires s != nil && nextMerge != nil && s.root != nil && !held(s.rootLock) && rheld(s.rootLock) == 0 && len(s.root.segment) <= 1048576 && len(nextMerge.newSegments) <= 1048576 && s.nextSnapshotEpoch < 4611686018427387904
+//@   requires len(nextMerge.newSegmentIDs) == len(nextMerge.newSegments) && nextMerge.mergedSegHistory != nil
+//@   requires forall(k, 0, len(s.root.segment), s.root.segment[k] != nil && s.root.segment[k].segment != nil)
+//@   requires forall(p, 0, len(s.root.segment), forall(q, p+1, len(s.root.segment), s.root.segment[p].id != s.root.segment[q].id))
+//@   requires all(id, uint64, implies(in(nextMerge.mergedSegHistory, id), nextMerge.mergedSegHistory[id] != nil && histOK(nextMerge.mergedSegHistory[id], len(nextMerge.newSegments))))
+//@   requires forall(k, 0, len(s.root.segment), implies(in(nextMerge.mergedSegHistory, s.root.segment[k].id), all(x, uint32, implies(bin(s.root.segment[k].deleted, x), int(x) < len(nextMerge.mergedSegHistory[s.root.segment[k].id].oldNewDocIDs)))))
+//@   modifies fields(Scorch), fields(IndexSnapshot), lock(s.rootLock), map(s.ineligibleForRemoval), map(nextMerge.mergedSegHistory), roaring.Bitmap.mem, roaring.IntIterable.pos
+//@   ensures !held(s.rootLock) && rheld(s.rootLock) == 0
+//@   ensures s.root != old(s.root) && s.root != nil && len(s.root.offsets) == len(s.root.segment) && runningOffsets(s.root.segment, s.root.offsets, len(s.root.segment))
+// the carry-over, stated where the merged segments are about to be added to the new snapshot
+//@   at call newSnapshot.AddRef#0: assert forall(k, 0, len(root.segment), implies(old(in(nextMerge.mergedSegHistory, root.segment[k].id)), carried(newSegmentsDeleted, root.segment[k], old(nextMerge.mergedSegHistory[root.segment[k].id]))))
+// ---- loop invariants ----
+// stable: the old root, the merge request and every bitmap that existed before are not modified
+//@ spec mergeStable(s *Scorch, root *IndexSnapshot, nextMerge *segmentMerge, newSnapshot *IndexSnapshot) bool = s.root == root && root != newSnapshot && newSnapshot != nil && fresh(newSnapshot) && !held(s.rootLock) && rheld(s.rootLock) == 0
+//@   loop 0: invariant mergeStable(s, root, nextMerge, newSnapshot) && root == old(s.root) && s.nextSnapshotEpoch == old(s.nextSnapshotEpoch) && root.segment == old(s.root.segment) && nextMerge.newSegments == old(nextMerge.newSegments) && nextMerge.newSegmentIDs == old(nextMerge.newSegmentIDs) && nextMerge.mergedSegHistory == old(nextMerge.mergedSegHistory)
+//@   loop 0: invariant fresh(newSegmentsDeleted) && len(newSegmentsDeleted) == len(nextMerge.newSegments) && freshBitmaps(newSegmentsDeleted, iter) && len(newSnapshot.segment) == 0 && len(newSnapshot.offsets) == 0 && cap(newSnapshot.segment) == 0 && cap(newSnapshot.offsets) == 0
+//@   loop 0: invariant all(b, *roaring.Bitmap, implies(!fresh(b), b.mem == old(b.mem)))
+//@   loop 1: invariant mergeStable(s, root, nextMerge, newSnapshot) && root == old(s.root) && s.nextSnapshotEpoch == old(s.nextSnapshotEpoch) && root.segment == old(s.root.segment) && nextMerge.newSegments == old(nextMerge.newSegments) && nextMerge.newSegmentIDs == old(nextMerge.newSegmentIDs) && nextMerge.mergedSegHistory == old(nextMerge.mergedSegHistory)
+//@   loop 1: invariant fresh(newSegmentsDeleted) && len(newSegmentsDeleted) == len(nextMerge.newSegments) && freshBitmaps(newSegmentsDeleted, len(newSegmentsDeleted))
+//@   loop 1: invariant all(b, *roaring.Bitmap, implies(!fresh(b), b.mem == old(b.mem)))
+//@   loop 1: invariant len(newSnapshot.offsets) == len(newSnapshot.segment) && len(newSnapshot.segment) <= iter && (cap(newSnapshot.segment) == 0 || fresh(newSnapshot.segment)) && (cap(newSnapshot.offsets) == 0 || fresh(newSnapshot.offsets)) && (cap(droppedSegmentFiles) == 0 || fresh(droppedSegmentFiles))
+//@   loop 1: invariant runningOffsets(newSnapshot.segment, newSnapshot.offsets, len(newSnapshot.segment)) && forall(k, 0, len(newSnapshot.segment), newSnapshot.segment[k] != nil && newSnapshot.segment[k].segment != nil)
+//@   loop 1: invariant implies(len(newSnapshot.segment) == 0, running == 0) && implies(len(newSnapshot.segment) > 0, running == newSnapshot.offsets[len(newSnapshot.segment)-1] + segDocs(newSnapshot.segment[len(newSnapshot.segment)-1].segment)) && running <= 4294967296 * iter && docsToPersistCount <= 4294967296 * iter && memSegments <= iter && fileSegments <= iter
+// the history map only loses the entries of the root segments visited so far
+//@   loop 1: invariant all(id, uint64, implies(in(nextMerge.mergedSegHistory, id), old(in(nextMerge.mergedSegHistory, id)) && nextMerge.mergedSegHistory[id] == old(nextMerge.mergedSegHistory[id]))) && forall(k, iter, len(root.segment), iff(in(nextMerge.mergedSegHistory, root.segment[k].id), old(in(nextMerge.mergedSegHistory, root.segment[k].id))))
+//@   loop 1: invariant forall(k, 0, iter, implies(old(in(nextMerge.mergedSegHistory, root.segment[k].id)), carried(newSegmentsDeleted, root.segment[k], old(nextMerge.mergedSegHistory[root.segment[k].id]))))
